@@ -108,7 +108,13 @@ class Multiplication:
     cpy = segment.clone()
     cpy.name = clone_name
     cpy.connect(self)
+    processed_circulars = set()
     for l in segment.dovetails + segment.containments:
+      if l.is_circular():
+        # circular lines are listed once for each of the two ends
+        if l in processed_circulars:
+          continue
+        processed_circulars.add(l)
       lc = l.clone()
       if lc.from_segment == segment.name:
         lc.from_segment = clone_name
